@@ -222,10 +222,21 @@ func (tfs *tagFamilyFilters) Eq(tagName string, tagValue string) bool {
 				// No filter available, conservatively return true (don't skip)
 				return true
 			}
-			return tf.filter.MightContain([]byte(tagValue))
+			return filterMightContain(tf.filter, []byte(tagValue))
 		}
 	}
 	return true
+}
+
+// filterMightContain reports whether item may be a value (or, for an array tag, an
+// element of a value) of the block. A dictionary filter built from a
+// dictionary-encoded array tag holds whole arrays and its MightContain rejects
+// array types by contract; element membership there is the subset check.
+func filterMightContain(f Filter, item []byte) bool {
+	if df, ok := f.(*filter.DictionaryFilter); ok {
+		return df.ContainsAll([][]byte{item})
+	}
+	return f.MightContain(item)
 }
 
 func (tfs *tagFamilyFilters) Range(tagName string, rangeOpts index.RangeOpts) (bool, error) {
@@ -263,7 +274,7 @@ func (tfs *tagFamilyFilters) Having(tagName string, tagValues []string) bool {
 		if tf, ok := (*tff)[tagName]; ok {
 			if tf.filter != nil {
 				for _, tagValue := range tagValues {
-					if tf.filter.MightContain([]byte(tagValue)) {
+					if filterMightContain(tf.filter, []byte(tagValue)) {
 						return true // Return true as soon as we find a potential match
 					}
 				}
